@@ -1,6 +1,7 @@
 package main
 
 import (
+	"errors"
 	"fmt"
 	"sort"
 	"strconv"
@@ -32,9 +33,37 @@ import (
 // ---------------------------------------------------------------- stream sds: real code
 
 type clusterSpec struct {
-	id    string
-	objs  []runtime.Object
-	allow sets.String // user names the fake SubjectAccessReview answers "allowed" for
+	id     string
+	objs   []runtime.Object
+	allow  sets.String // user names the fake SubjectAccessReview answers "allowed" for
+	sarErr bool        // the SubjectAccessReview API call itself fails (must be treated as "not authorised")
+}
+
+// sarPolicy is the fake Kubernetes authoriser behind SubjectAccessReview: a review is allowed only if it
+// asks exactly "may <user> list secrets in <the user's own namespace>" (core group, no name/subresource)
+// and the user is in the allowed set; with apiError the API call fails.
+type sarPolicy struct {
+	allow    sets.String
+	apiError bool
+}
+
+func installSAR(cs *fake.Clientset, p *sarPolicy) {
+	cs.Fake.PrependReactor("create", "subjectaccessreviews", func(action k8stesting.Action) (bool, runtime.Object, error) {
+		if p.apiError {
+			return true, nil, errors.New("subjectaccessreviews: the server is currently unable to handle the request")
+		}
+		a := action.(k8stesting.CreateAction).GetObject().(*authorizationv1.SubjectAccessReview)
+		ra := a.Spec.ResourceAttributes
+		userNs := ""
+		if rest, ok := strings.CutPrefix(a.Spec.User, "system:serviceaccount:"); ok {
+			userNs, _, _ = strings.Cut(rest, ":")
+		}
+		ok := ra != nil && a.Spec.NonResourceAttributes == nil && ra.Namespace == userNs && ra.Verb == "list" && ra.Resource == "secrets" &&
+			ra.Group == "" && ra.Name == "" && ra.Subresource == "" && p.allow.Contains(a.Spec.User)
+		return true, &authorizationv1.SubjectAccessReview{
+			Status: authorizationv1.SubjectAccessReviewStatus{Allowed: ok, Reason: "verif"},
+		}, nil
+	})
 }
 
 type sdsSUT struct {
@@ -88,19 +117,18 @@ func (s *sdsSUT) start(cfg string) {
 	for _, id := range s.order {
 		sp := s.specs[id]
 		client := kube.NewFakeClient(sp.objs...)
-		allowed := sp.allow
-		client.Kube().(*fake.Clientset).Fake.PrependReactor("create", "subjectaccessreviews", func(action k8stesting.Action) (bool, runtime.Object, error) {
-			a := action.(k8stesting.CreateAction).GetObject().(*authorizationv1.SubjectAccessReview)
-			return true, &authorizationv1.SubjectAccessReview{
-				Status: authorizationv1.SubjectAccessReviewStatus{Allowed: allowed.Contains(a.Spec.User), Reason: "verif"},
-			}, nil
-		})
+		installSAR(client.Kube().(*fake.Clientset), &sarPolicy{allow: sp.allow, apiError: sp.sarErr})
 		mc.Add(cluster.ID(id), client, s.stop)
 		client.RunAndWait(s.stop)
 	}
 	s.cache = model.NewXdsCache()
 	s.gen = pxds.NewSecretGen(s.creds, s.cache, cluster.ID(cfg), nil)
 }
+
+var (
+	startBase    = time.Date(2200, 1, 1, 0, 0, 0, 0, time.UTC)
+	startCounter int64
+)
 
 // genReq is one decoded `gen` op.
 type genReq struct {
@@ -146,7 +174,7 @@ func decGen(f []string) genReq {
 func (g genReq) proxy() *model.Proxy {
 	p := &model.Proxy{
 		ID: "verif-proxy", Type: model.NodeType(g.ptype), ConfigNamespace: g.claimedNs,
-		Metadata:         &model.NodeMetadata{ClusterID: cluster.ID(g.cluster), Namespace: g.claimedNs},
+		Metadata:         &model.NodeMetadata{ClusterID: cluster.ID(g.cluster), Namespace: g.claimedNs, ServiceAccount: "claimed-" + g.claimedNs},
 		VerifiedIdentity: g.vid,
 	}
 	if g.hasRefs {
@@ -211,7 +239,10 @@ func showViews(vs []secretView) string {
 
 func (s *sdsSUT) generate(gen *pxds.SecretGen, g genReq) (model.Resources, string) {
 	if g.req != nil {
-		g.req.Start = time.Now()
+		// no wall clock: strictly increasing push start times far in the future, so that the token rule of
+		// lruCache.Add (entry dropped when older than the last Clear, which is stamped with time.Now()) never fires
+		startCounter++
+		g.req.Start = startBase.Add(time.Duration(startCounter) * time.Millisecond)
 	}
 	w := &model.WatchedResource{TypeUrl: v3.SecretType, ResourceNames: sets.New(g.names...)}
 	res, details, _ := gen.Generate(g.proxy(), w, g.req)
@@ -261,6 +292,9 @@ func (s *sdsSUT) apply(f []string) string {
 		return "ok"
 	case "allow":
 		s.spec(wire.Dec(f[1])).allow.Insert(sa.MakeUsername(wire.Dec(f[3]), wire.Dec(f[2])))
+		return "ok"
+	case "sarerr":
+		s.spec(wire.Dec(f[1])).sarErr = true
 		return "ok"
 	case "start":
 		s.start(wire.Dec(f[1]))
@@ -361,6 +395,9 @@ func genWorld(r *wire.Rng, out *wire.Out) (clusters []string, cfg string) {
 				}
 			}
 		}
+	}
+	if r.Chance(1, 10) {
+		out.Line("sarerr", wire.Pick(r, clusters))
 	}
 	out.Line("start", cfg)
 	return clusters, cfg
@@ -563,7 +600,7 @@ func (s *sdsSUT) oracleGen(f []string) string {
 			return "payload-without-origin " + wire.Enc(v.name)
 		}
 		sp := s.specs[g.cluster]
-		authorised := sp != nil && sp.allow.Contains(sa.MakeUsername(g.vid.Namespace, g.vid.ServiceAccount))
+		authorised := sp != nil && !sp.sarErr && sp.allow.Contains(sa.MakeUsername(g.vid.Namespace, g.vid.ServiceAccount))
 		switch {
 		case v.hasKey:
 			ko, ok2 := parseOrigin(v.key)
